@@ -4,6 +4,7 @@
 -/
 import CircuitModel.Logic
 import CircuitModel.Spec.Circuit
+import CircuitModel.CircuitOps
 namespace CM
 open SpecCircuit
 
@@ -90,7 +91,7 @@ def parseExec (kvs : List (String × String)) : Option ExecOp := do
   let fa ← parseAction ((kvGet kvs "fb").getD "none")
   let run := ra.map fun a => ({ adv := kvInt kvs "radv" 0, cancelCaller := kvBool kvs "rcancel" false, act := a } : Script)
   let fb := fa.map fun a => ({ adv := kvInt kvs "fadv" 0, cancelCaller := kvBool kvs "fcancel" false, act := a } : Script)
-  pure { ctx := ctx, run := run, fb := fb, ans := parseAns ((kvGet kvs "ans").getD "0000") }
+  pure { ctx := ctx, run := run, fb := fb }
 
 def parseEmit (s : String) : Option Emit :=
   let timeDur (r : String) : Option (Int × Int) :=
@@ -166,13 +167,6 @@ def setAns (c : Circ OState CState) (a : Ans) : Circ OState CState :=
     opener := (match c.opener with | .scripted o => .scripted { o with shouldOpen := a.shouldOpen, prevent := a.prevent } | o => o),
     closer := (match c.closer with | .scripted k => .scripted { k with allow := a.allow, shouldClose := a.shouldClose } | k => k) }
 
-def obsOfModel (c : Circ OState CState) (obs : Obs) (res : Res) (op : ExecOp) : ExecObs :=
-  { res := res, runCalls := if obs.runSeen.isSome then 1 else 0, fbCalls := if obs.fbArg.isSome then 1 else 0,
-    seen := obs.runSeen,
-    seenErrAfter := (match op.run with | some sc => if obs.runSeen.isSome then ctxErrAfter op.ctx sc else none | none => none),
-    fbArg := obs.fbArg, fbSame := obs.fbSameCtx, emits := obs.emits, readings := obs.readings, released := obs.released,
-    openAfter := isOpenEff c, conc := c.conc, concFb := c.concFb, fanOk := true }
-
 def initCirc (kvs : List (String × String)) : Circ OState CState :=
   let opener : OState := match kvGet kvs "opener" with
     | some "hystrix" => .hystrix (HOpener.new (kvNat kvs "o_n" 10) (kvInt kvs "o_dur" 10000000000) (kvInt kvs "o_pct" 50) (kvInt kvs "o_vol" 20))
@@ -213,14 +207,22 @@ partial def runCircuitOps (ck : CloserKind) (c : Circ OState CState) (cfgSpec : 
       match parseExec kvs with
       | none => runCircuitOps ck c cfgSpec rb rest (acc.push "bad-op\t-")
       | some op =>
-        let c := setAns c op.ans
+        -- scripted answers exist only where the logic is scripted
+        let oScr := match c.opener with | .scripted _ => true | _ => false
+        let cScr := match c.closer with | .scripted _ => true | _ => false
+        let a0 := parseAns ((kvGet kvs "ans").getD "0000")
+        let ans : Ans := { shouldOpen := a0.shouldOpen && oScr, prevent := a0.prevent && oScr,
+                           allow := a0.allow && cScr, shouldClose := a0.shouldClose && cScr }
+        let c := setAns c ans
+        let adm := admission cfgSpec ck rb.openBefore ans
+        let pv := ans.prevent
         let (c', obs, res) := execute openerI closerI c op.ctx op.run op.fb
-        let mo := obsOfModel c' obs res op
+        let mo := mkObs c' obs res op
         let (spec, rb') := match parseObs op real with
           | none => ("-", rb)
           | some ro =>
-            (joinVerdicts [("C01", verdictC01 cfgSpec ck rb.openBefore op ro), ("C05", verdictC05 cfgSpec ck rb.openBefore op ro),
-              ("C06", verdictC06 cfgSpec op ro), ("C07", verdictC07 cfgSpec op ro), ("C08", verdictC08 cfgSpec rb.openBefore op ro),
+            (joinVerdicts [("C01", verdictC01 cfgSpec adm pv op ro), ("C05", verdictC05 cfgSpec adm pv op ro),
+              ("C06", verdictC06 cfgSpec op ro), ("C07", verdictC07 cfgSpec op ro), ("C08", verdictC08 cfgSpec rb.openBefore pv op ro),
               ("C09", verdictC09 cfgSpec rb.lastNotif ro.emits ro.openAfter ro.fanOk),
               ("C10", verdictC10 cfgSpec rb.openBefore rb.conc rb.concFb op ro), ("C12", verdictC12 ro.emits ro.readings)],
              { openBefore := ro.openAfter, lastNotif := ((notifs ro.emits).getLast?).orElse fun _ => rb.lastNotif, conc := ro.conc, concFb := ro.concFb })
